@@ -139,10 +139,6 @@ theorem sizeLane (n : Nat) (h : n < 32) : lane32 (cvtsi64_si128 (BitVec.ofNat 64
 
 theorem tipLane : lane32 (cvtsi32_si128 32) 0 = 32#32 := by decide
 
-theorem lane32_set1 (x : BitVec 32) (k : Nat) (hk : k < 4) : lane32 (set1_epi32 x) k = x := by
-  have := mk32_lanes (set1_epi32 x)
-  interval_cases k <;> (unfold set1_epi32 lane32 mk32; bv_lsb)
-
 theorem rotate_lanes (v : BitVec 128) (n : Nat) (h : n < 32) :
     or_si128 (sllv_epi32 v (set1_epi32 (lane32 (cvtsi64_si128 (BitVec.ofNat 64 n)) 0)))
              (srlv_epi32 v (sub_epi32 (set1_epi32 (lane32 (cvtsi32_si128 32) 0)) (set1_epi32 (lane32 (cvtsi64_si128 (BitVec.ofNat 64 n)) 0))))
